@@ -236,6 +236,8 @@ func (p *poller) dispatch() {
 	p.posts = p.spare[:0]
 	p.lck.Unlock()
 
+	verifPoint("dispatch:after-swap")
+
 	for i, handler := range posts {
 		handler()
 		posts[i] = nil
